@@ -83,6 +83,76 @@ package constraint
 //@   ensures @fails-only-if-unsat-C result != nil && old(solved(s, inst.Calldata[0])) && old(solved(s, inst.Calldata[1])) && !old(solved(s, inst.Calldata[2])) ==> forall x F :: gateAt(s, c, val(s, c.XA), val(s, c.XB), x) != f0
 //@   ensures @fails-only-if-violated result != nil && old(solved(s, inst.Calldata[0])) && old(solved(s, inst.Calldata[1])) && old(solved(s, inst.Calldata[2])) ==> gate(s, c) != f0
 
+// ---- the specialised gates. Each Solve computes (or checks) exactly the gate its own DecompressSparseR1C
+// hands to the PLONK prover: qM*xa*xb - xc = 0, qL*xa + qR*xb - xc + qC = 0, qL*xa + qM*xa*xa = 0.
+// The instruction tree guarantees the inputs are solved and the output is not.
+//@ contract (*BlueprintSparseR1CMul).Solve
+//@   props C06
+//@   requires s != nil && len(inst.Calldata) >= 4 && solved(s, inst.Calldata[0]) && solved(s, inst.Calldata[1]) && !solved(s, inst.Calldata[2]) && coeff(s, 1) == f1
+//@   nopanic
+//@   ensures @solved result == nil && solved(s, inst.Calldata[2])
+//@   ensures @gate-holds fmul(coeff(s, inst.Calldata[3]), fmul(val(s, inst.Calldata[0]), val(s, inst.Calldata[1]))) == val(s, inst.Calldata[2])
+//@   ensures @frame forall w int :: old(solved(s, w)) ==> solved(s, w) && val(s, w) == old(val(s, w))
+//@ contract (*BlueprintSparseR1CMul).DecompressSparseR1C
+//@   props C06
+//@   requires c != nil && len(inst.Calldata) >= 4 && alloc(c) != alloc(inst.Calldata)
+//@   nopanic
+//@   ensures @gate c.XA == inst.Calldata[0] && c.XB == inst.Calldata[1] && c.XC == inst.Calldata[2] && c.QL == 0 && c.QR == 0 && c.QO == 3 && c.QM == inst.Calldata[3] && c.QC == 0 && c.Commitment == 0
+
+//@ contract (*BlueprintSparseR1CAdd).Solve
+//@   props C06
+//@   requires blueprint != nil && s != nil && len(inst.Calldata) >= 6 && solved(s, inst.Calldata[0]) && solved(s, inst.Calldata[1]) && !solved(s, inst.Calldata[2])
+//@   nopanic
+//@   ensures @solved result == nil && solved(s, inst.Calldata[2])
+//@   ensures @gate-holds fadd(fadd(fmul(coeff(s, inst.Calldata[3]), val(s, inst.Calldata[0])), fmul(coeff(s, inst.Calldata[4]), val(s, inst.Calldata[1]))), coeff(s, inst.Calldata[5])) == val(s, inst.Calldata[2])
+//@   ensures @frame forall w int :: old(solved(s, w)) ==> solved(s, w) && val(s, w) == old(val(s, w))
+//@ contract (*BlueprintSparseR1CAdd).DecompressSparseR1C
+//@   props C06
+//@   requires c != nil && len(inst.Calldata) >= 6 && alloc(c) != alloc(inst.Calldata)
+//@   nopanic
+//@   ensures @gate c.XA == inst.Calldata[0] && c.XB == inst.Calldata[1] && c.XC == inst.Calldata[2] && c.QL == inst.Calldata[3] && c.QR == inst.Calldata[4] && c.QO == 3 && c.QM == 0 && c.QC == inst.Calldata[5] && c.Commitment == 0
+
+//@ contract (*BlueprintSparseR1CBool).Solve
+//@   props C06
+//@   requires s != nil && len(inst.Calldata) >= 3 && solved(s, inst.Calldata[0]) && coeff(s, 1) == f1
+//@   nopanic
+//@   assigns
+//@   ensures @gate-holds result == nil ==> fadd(fmul(coeff(s, inst.Calldata[1]), val(s, inst.Calldata[0])), fmul(coeff(s, inst.Calldata[2]), fmul(val(s, inst.Calldata[0]), val(s, inst.Calldata[0])))) == f0
+//@   ensures @fails-only-if-violated result != nil ==> fadd(fmul(coeff(s, inst.Calldata[1]), val(s, inst.Calldata[0])), fmul(coeff(s, inst.Calldata[2]), fmul(val(s, inst.Calldata[0]), val(s, inst.Calldata[0])))) != f0
+//@ contract (*BlueprintSparseR1CBool).DecompressSparseR1C
+//@   props C06
+//@   requires c != nil && len(inst.Calldata) >= 3 && alloc(c) != alloc(inst.Calldata)
+//@   nopanic
+//@   ensures @gate c.XA == inst.Calldata[0] && c.XB == inst.Calldata[0] && c.XC == 0 && c.QL == inst.Calldata[1] && c.QR == 0 && c.QO == 0 && c.QM == inst.Calldata[2] && c.QC == 0 && c.Commitment == 0
+
+// ---- levels. Abstract state of an InstructionTree: which wires it holds and the level of each (-1: not yet
+// produced). An instruction's level must lie strictly above the level of every wire it reads, and the wires it
+// produces are inserted at exactly that level: this is what lets the solver run a level's instructions in parallel.
+//@ ghost hasW bool
+//@ ghost lvl int
+//@ contract iface InstructionTree.HasWire
+//@   pure
+//@   ensures result == hasW(recv, wire)
+//@ contract iface InstructionTree.GetWireLevel
+//@   pure
+//@   ensures result == lvl(recv, wire) && result >= 0 - 1
+//@ contract iface InstructionTree.InsertWire
+//@   assigns lvl(recv, wire)
+//@   ensures lvl(recv, wire) == level
+//@ contract updateInstructionTree
+//@   props C06
+//@   requires tree != nil
+//@   ensures @nonneg result >= 0
+//@   ensures @above-inputs forall k int :: 0 <= k && k < len(wires) && hasW(tree, wires[k]) && old(lvl(tree, wires[k])) != 0 - 1 ==> old(lvl(tree, wires[k])) < result
+//@   ensures @inputs-kept forall w int :: old(lvl(tree, w)) != 0 - 1 ==> lvl(tree, w) == old(lvl(tree, w))
+//   (the caller guarantees at most one open wire; with several, the last one is the one inserted)
+//@   ensures @output-has found ==> hasW(tree, outputWire)
+//@   ensures @output-open found ==> old(lvl(tree, outputWire)) == 0 - 1
+//@   ensures @output-level found ==> lvl(tree, outputWire) == result
+//@   ensures @open-found forall k int :: 0 <= k && k < len(wires) && hasW(tree, wires[k]) && old(lvl(tree, wires[k])) == 0 - 1 ==> found
+//@   loop 1 invariant @max maxLevel >= 0 - 1 && forall k int :: 0 <= k && k <= rangeindex && hasW(tree, wires[k]) && lvl(tree, wires[k]) != 0 - 1 ==> lvl(tree, wires[k]) <= maxLevel
+//@   loop 1 invariant @found (found ==> hasW(tree, outputWire) && lvl(tree, outputWire) == 0 - 1) && forall k int :: 0 <= k && k <= rangeindex && hasW(tree, wires[k]) && lvl(tree, wires[k]) == 0 - 1 ==> found
+
 // ---- C09: after decoding, the header check restores the field of the system from its serialized hex
 // modulus: q is that number and bitLen is its bit length (both are unexported and not part of the encoding).
 //@ contract (*System).CheckSerializationHeader
